@@ -1636,6 +1636,29 @@ MODELS["std::iter::Iterator::all"] = m_all_any(True)
 MODELS["std::iter::Iterator::any"] = m_all_any(False)
 
 
+@model("std::iter::Iterator::fold")
+def m_fold(I, state, frame, bi, t, args, span):
+    """acc = init; for e in it { acc = f(acc, e) }: least fixpoint of the accumulator over the (summarised) element"""
+    from interp import join_state
+    it = deref(I, state, args[0]) if args[0][0] == "ref" else args[0]
+    acc = args[1]
+    st = state
+    for _round in range(6):
+        new_acc = acc
+        merged = st
+        for (e, s1) in each_element(I, st, frame, bi, it, span):
+            for (rv, s2) in call_closure(I, s1, frame, bi, args[2], [acc, e], span):
+                new_acc = join(new_acc, rv)
+                merged = join_state(merged, s2)
+        st = merged
+        if new_acc == acc:
+            break
+        acc = new_acc
+    else:
+        acc = TOP
+    return [(acc, st)]
+
+
 @model("std::iter::Iterator::flat_map")
 def m_flat_map(I, state, frame, bi, t, args, span):
     it = args[0]
